@@ -13,8 +13,22 @@ def harnesses(tier):
     i = C16.id_harness(tier); i.name = 'E2.Id(start coordinates)'
     i.shapes = [s for s in i.shapes if 'symbolic' in s['_tag']]
     hs.append(i)
+    hs.append(eval_wrapper_harness())
     return hs
+
+def eval_wrapper_harness():
+    from props.engine_family import FAM as ENG
+    from irbmc.core import Harness
+    rx = r'AST_Node_Impl<.*>::eval\(chaiscript::detail::Dispatch_State const&\) const$'
+    stubs = [r'chaiscript::AST_Node_Trace::AST_Node_Trace\(', r'std::vector<chaiscript::AST_Node_Trace.*>::(push_back|emplace_back)', r'chaiscript::AST_Node_Trace::~AST_Node_Trace']
+    d = {'NODE_EVAL': core.csym(ENG, rx), 'TRACE_CTOR': core.csym(ENG, r'^chaiscript::AST_Node_Trace::AST_Node_Trace\(chaiscript::AST_Node const&\)$'), 'TRACE_DTOR': core.csym(ENG, r'^chaiscript::AST_Node_Trace::~AST_Node_Trace\(\)$'),
+         'TRACE_PUSH': core.csym(ENG, r'^std::vector<chaiscript::AST_Node_Trace.*>::push_back\(chaiscript::AST_Node_Trace&&\)$')}
+    h = Harness('E3.eval_wrapper(call stack)', ENG, [rx], 'c20_eval_wrapper.c', stubs=stubs, cuts=[r'Boxed_Value::~Boxed_Value'], keep_virtual=[r'.*'],
+                shapes=[dict(d, _tag='any outcome of eval_internal', _witness=('witness: value', 'witness: eval_error traced', 'witness: other exception'))], opts=['--unwind', '6'], timeout=120, mem_gb=4,
+                inputs=['behav'], note='eval_internal abstract: returns or throws one of 6 kinds; trace construction and push_back are recorders')
+    h.need_globals = ['_ZTIN10chaiscript9exception10eval_errorE', '_ZTIN10chaiscript11Boxed_ValueE']
+    return h
 
 ASSUMPTIONS = ['as C01 lexer harnesses; the start state satisfies the coordinate invariant, which each kernel must preserve (one inductive step covers any history)',
                'm_last_col holds the column of the newline just crossed (what operator++ records)']
-OUTSIDE = ['trace plumbing in AST_Node_Impl::eval and error construction in Id/Fun_Call nodes (E3/E4): to be added', 'file names across eval() chunks', 'columns after a tab (bytes are counted)']
+OUTSIDE = ['error construction in Id/Fun_Call nodes (which location the eval_error is given) and the copy of text/location AST_Node_Trace makes', 'file names across eval() chunks', 'columns after a tab (bytes are counted)']
